@@ -50,6 +50,10 @@ func escapeTemplate(tmpl *Template, node parse.Node, name string) error {
 		err, c.err.Name = c.err, name
 	} else if c.state != stateText {
 		err = &Error{ErrEndContext, nil, name, 0, fmt.Sprintf("ends in a non-text context: %+v", c)}
+	} else if mixedSpecial(c.element) || c.element.split {
+		// The engine's text state is a guess here: under another of its names, or under
+		// its real name, the element that was opened last has a body of its own kind.
+		err = &Error{ErrEndContext, nil, name, 0, fmt.Sprintf("ends in the content of an element whose name is not known: %+v", c)}
 	}
 	if err != nil {
 		// Prevent execution of unsafe templates.
